@@ -12,7 +12,7 @@ elab "#audit_ns " ns:ident : command => do
       if let .thmInfo _ := ci then
         -- equation lemmas generated for definitions (`f.eq_1`, `f.eq_def`) are not property theorems
         let last := match n with | .str _ s => s | _ => ""
-        if !(last.startsWith "eq_") then
+        if !(last.startsWith "eq_") && last != "injEq" && last != "sizeOf_spec" && last != "inj" then
           names := names.push n
   let sorted := names.qsort (fun a b => a.toString < b.toString)
   for n in sorted do
